@@ -403,12 +403,12 @@ class Interp:
                     fi = self.front.module_function(target_mod, obj)
                     if fi is not None:
                         return FuncRef(fi)
-                    if target_mod in self.front.modules or (target_mod + "." + obj) in self.front.modules:
-                        return Mod(f"aspire.{target_mod}.{obj}" if target_mod else f"aspire.{obj}")
                     # re-exported names (e.g. `from ..samples import to_numpy`)
                     sub = self.front.imports.get(target_mod, {}).get(obj)
                     if sub is not None:
                         return self.module_name(target_mod, obj, node)
+                    if target_mod in self.front.modules or (target_mod + "." + obj) in self.front.modules:
+                        return Mod(f"aspire.{target_mod}.{obj}" if target_mod else f"aspire.{obj}")
                 key = f"{modpart}.{obj}" if not modpart.startswith(".") else obj
                 if key in self.reg.handlers:
                     return Fn(self.reg.handlers[key], key)
@@ -709,6 +709,12 @@ class Interp:
         if isinstance(n.op, ast.Not):
             return B(z3.Not(self.truth(a, n)))
         if isinstance(n.op, ast.USub):
+            if isinstance(a, Sym) and a.tag == "xreal":
+                from .xreal import xneg
+                return Sym(xneg(a.e), "xreal")
+            if isinstance(a, Arr) and a.elem == "xreal":
+                from .xreal import xneg
+                return Arr(a.n, "xreal", lambda k, _at=a.at: xneg(_at(k)), f"neg({a.key})", a.meta)
             if isinstance(a, Arr):
                 return self.reg.arr_unop(self, "neg", a, n)
             if isinstance(a, Z):
